@@ -1,3 +1,3 @@
 -- Root of the LC library: every theorem module that must check.
 import LC.Props.C02
-import LC.Props.C20Sets
+import LC.Props.C20
